@@ -304,7 +304,7 @@ func (m ics20Wrap) OnRecvPacket(ctx sdk.Context, p channeltypes.Packet, relayer 
 	m.i.ics20Bal = []DenomAmt{}
 	for _, c := range diff {
 		if !c.Amount.IsZero() {
-			m.i.ics20Bal = append(m.i.ics20Bal, DenomAmt{D: c.Denom, A: toInt(c.Amount, "ics20 credit")})
+			m.i.ics20Bal = append(m.i.ics20Bal, DenomAmt{D: c.Denom, A: capInt(c.Amount)})
 		}
 	}
 	return ack
@@ -360,6 +360,10 @@ func (s *swapController) HandlePacket(ctx context.Context, p *types.ActionPacket
 
 var testdataRegistered = false
 
+// authorityOverride, when set, is the authority of the instrumented keeper (C10: a chain whose
+// authority is a MODULE account, e.g. gov).
+var authorityOverride string
+
 func NewInstr(w *World, withSwap bool) *Instr {
 	i := &Instr{w: w, faults: map[string]bool{}}
 	app := w.app
@@ -375,7 +379,7 @@ func NewInstr(w *World, withSwap bool) *Instr {
 	k := keeper.NewKeeper(w.cdc, address.NewBech32Codec("noble"), log.NewNopLogger(),
 		evSvc{i: i, real: runtime.EventService{}},
 		runtime.NewKVStoreService(app.GetKey(core.ModuleName)),
-		app.OrbiterKeeper.Authority(), bw)
+		instrAuthority(app.OrbiterKeeper.Authority()), bw)
 	i.k = k
 
 	// forwarding controllers over recording/fault wrappers that delegate to the real servers
@@ -449,3 +453,10 @@ var (
 	_ = sdkmath.ZeroInt
 	_ proto.Message
 )
+
+func instrAuthority(def string) string {
+	if authorityOverride != "" {
+		return authorityOverride
+	}
+	return def
+}
